@@ -110,8 +110,10 @@ def gen(seed: int, i: int, tier: str) -> dict:
                 ops.append(["line", f"1;255;4;0;{rng.randint(-1, 8)};ab\n"])
             elif r2 < 0.7:
                 ops.append(["line", "0;255;3;0;14;Gateway startup complete.\n"])
-            elif r2 < 0.8:
+            elif r2 < 0.77:
                 ops.append(["relisten"])
+            elif r2 < 0.8:
+                ops.append(["reenter"])
             else:
                 ops.append(["line", f"1;0;1;0;2;{G.payload(rng)}\n"])
     return {"cfg": {"pin": None}, "ops": ops}
